@@ -67,6 +67,30 @@ Docs == { [n |-> 8, kind |-> Kinds, parent |-> Par,
                    a6 : {<<>>, <<St(2, 6, "none")>>}, ar : {<<>>, <<St(4, 8, "none")>>},
                    tp : {<<N, N>>, <<2, 10>>}, id : {"", "none", "auto"}] }
 """),
+  # ruby: a base and an annotation with timing / display of their own next to plain text; the base with content or EMPTY
+  # (an empty base is a base all the same: while it is active the annotation has something to annotate)
+  "ruby": dict(tmax=12, text=_COMMON + r"""
+TR == {<<N, N>>, <<2, 6>>, <<4, N>>, <<N, 4>>}
+KindsE == <<"body", "div", "p", "span", "text", "ruby", "rb", "rt", "span", "text">>
+ParE   == <<0, 1, 2, 3, 4, 3, 6, 6, 8, 9>>
+KindsF == <<"body", "div", "p", "span", "text", "ruby", "rb", "span", "text", "rt", "span", "text">>
+ParF   == <<0, 1, 2, 3, 4, 3, 6, 7, 8, 6, 10, 11>>
+Docs == { [n |-> 10, kind |-> KindsE, parent |-> ParE,
+           b |-> <<N, N, c.tp[1], N, N, c.tc[1], c.tb[1], c.tt[1], N, N>>,
+           e |-> <<N, N, c.tp[2], N, N, c.tc[2], c.tb[2], c.tt[2], N, N>>,
+           reg |-> Zero(10), disp |-> <<"", "", "", "", "", "", c.db, c.dt, "", "">>, anim |-> NoAnim(10),
+           txt |-> <<0, 0, 0, 0, 1, 0, 0, 0, 0, 1>>,
+           nr |-> 0, rb |-> <<>>, re |-> <<>>, rdisp |-> <<>>, ranim |-> <<>>, rbg |-> <<>>, idisp |-> ""]
+          : c \in [tp : {<<N, N>>, <<2, 10>>}, tc : {<<N, N>>, <<2, 8>>}, tb : TR, tt : TR, db : {"", "none"}, dt : {"", "none"}] }
+        \cup
+        { [n |-> 12, kind |-> KindsF, parent |-> ParF,
+           b |-> <<N, N, c.tp[1], N, N, c.tc[1], c.tb[1], N, N, c.tt[1], N, N>>,
+           e |-> <<N, N, c.tp[2], N, N, c.tc[2], c.tb[2], N, N, c.tt[2], N, N>>,
+           reg |-> Zero(12), disp |-> <<"", "", "", "", "", "", c.db, "", "", c.dt, "", "">>, anim |-> NoAnim(12),
+           txt |-> <<0, 0, 0, 0, 1, 0, 0, 0, 1, 0, 0, 1>>,
+           nr |-> 0, rb |-> <<>>, re |-> <<>>, rdisp |-> <<>>, ranim |-> <<>>, rbg |-> <<>>, idisp |-> ""]
+          : c \in [tp : {<<N, N>>, <<2, 10>>}, tc : {<<N, N>>, <<2, 8>>}, tb : TR, tt : TR, db : {"", "none"}, dt : {"", "none"}] }
+"""),
 }
 
 
@@ -79,7 +103,7 @@ def mc_family(name):
 # random documents
 # ------------------------------------------------------------------------------------------------------
 
-def random_doc(rng, max_nodes=40, anim_styles=False, space=False, ruby=True, ruby_forms=False):
+def random_doc(rng, max_nodes=40, anim_styles=False, space=False, ruby=True, ruby_forms=False, ruby_bias=False):
   den = rng.choice([1, 1, 2, 3, 25, 1001] * 6 + [10 ** 9 + 7, 10 ** 9 + 7])
   D = 2 * den                                  # document times are even ticks
   span = 10 * den                              # times within [0, 10 s)
@@ -186,12 +210,12 @@ def random_doc(rng, max_nodes=40, anim_styles=False, space=False, ruby=True, rub
                 part("rt", tc)
               if delim:
                 part("rp", tc)
-        elif r < 0.24 and ruby and len(kind) + 10 <= max_nodes:
+        elif r < (0.7 if ruby_bias else 0.24) and ruby and len(kind) + 10 <= max_nodes:
           # an untimed ruby skeleton: ruby(rb(span(text)), rt(span(text)))
           # a third of them with timing / display / display animation on the base, the annotation or their spans: the
           # annotation may be presented for part of the time only, the base may disappear under it
           rk = add("ruby", p, timed=True, regable=False)
-          loose = rng.random() < 0.5
+          loose = rng.random() < (0.9 if ruby_bias else 0.5)
           if rng.random() < 0.5:
             # group ruby: a base container and an annotation container, each with one or two members; timing / display on
             # any of them (all bases may be gone while the annotation is still there, and the other way round)
@@ -220,14 +244,15 @@ def random_doc(rng, max_nodes=40, anim_styles=False, space=False, ruby=True, rub
                 txt[tk - 1] = 1
             continue
           for sub in ("rb", "rt"):
-            own = loose and rng.random() < (0.7 if sub == "rt" else 0.3)
+            empty = loose and rng.random() < (0.3 if ruby_bias else 0.15)
+            own = loose and (empty or rng.random() < (0.7 if sub == "rt" else 0.3))
             sk = add(sub, rk, timed=own, regable=False)
             if not own:
               disp[sk - 1] = ""
               anim[sk - 1] = []
             # (a base or an annotation may be EMPTY - no child at all - and still carry timing of its own)
             nspans = rng.choice([1, 2, 2, 3]) if (loose or space) and rng.random() < 0.7 else 1
-            if loose and rng.random() < 0.12:
+            if empty:
               nspans = 0
             for _s in range(nspans):
               own_s = loose and rng.random() < 0.3
